@@ -46,32 +46,21 @@ Qed.
 Print Assumptions C04_same_symmetry.
 
 (* TWO SYMMETRIES (two-phase comparison), all 38 x 38 ordered pairs: the code
-   uses unique (G1 . G2); this is the needed set for every pair that is not
-   (trigonal|hexagonal) x cubic ... *)
-Theorem C04_two_symmetries_outside_finding : forall g h, In g groups -> In h groups ->
-  g_name g <> g_name h -> two_sym_bad g h = false ->
+   uses unique (G_other . G_self); this is the needed set { ~g2 * g1 } for
+   every ordered pair, so the value is the true maximum for all orientations *)
+Theorem C04_two_symmetries : forall g h, In g groups -> In h groups ->
+  g_name g <> g_name h ->
   forall O1 O2 : quat (T:=R),
     code_dot ROps (map rtoR (code_set (g_elems g) (g_elems h))) O1 O2
     = brute_dot ROps (map rtoR (g_elems g)) (map rtoR (g_elems h)) O1 O2.
 Proof.
-  intros g h Hg Hh Hne Hb. apply code_dot_is_brute_K.
-  pose proof (two_sym_decided g h Hg Hh) as H. rewrite Hb in H. cbn [negb] in H.
+  intros g h Hg Hh Hne. apply code_dot_is_brute_K.
+  pose proof (two_sym_decided g h Hg Hh) as H.
   unfold two_sym_ok in H. apply String.eqb_neq in Hne. rewrite Hne in H. exact H.
 Qed.
-Print Assumptions C04_two_symmetries_outside_finding.
+Print Assumptions C04_two_symmetries.
 
-(* ... and for those 140 ordered pairs the set the code uses (G1 . G2) is NOT
-   the set the minimum needs (G2^-1 . G1): the hypothesis of the general
-   theorem fails; concrete orientations on which the value is wrong are
-   replayed on the implementation by the oracle (known finding) *)
-Theorem C04_two_symmetries_set_condition_refuted : forall g h, In g groups -> In h groups ->
-  two_sym_bad g h = true -> two_sym_ok g h = false.
-Proof.
-  intros g h Hg Hh Hb. rewrite (two_sym_decided g h Hg Hh), Hb. reflexivity.
-Qed.
-Print Assumptions C04_two_symmetries_set_condition_refuted.
-
-Example C04_nonvacuous : exists g h, In g groups /\ In h groups /\ two_sym_bad g h = false /\ g_name g <> g_name h.
+Example C04_nonvacuous : exists g h, In g groups /\ In h groups /\ g_name g <> g_name h.
 Proof.
   exists (nth 15 groups (nth 0 groups (mkG "" nil 0 "" nil "" nil "" nil nil nil false false ""))),
          (nth 9 groups (nth 0 groups (mkG "" nil 0 "" nil "" nil "" nil nil nil false false ""))).
